@@ -628,6 +628,8 @@ def run(ck):
     ok, info = ck.lean_obligations("DS.Props.C09")
     # the lattice attributes enter through LatOK, discharged for the Lattice model (DS.Props.Bridge); that model is tied to lattice.py here
     tie_ok, tie_info = ck.source_tie("DS.Props.SrcLattice")
+    # the ADP state machine itself: model = symbolic execution of atom.py's getters and setters
+    tie2_ok, tie2_info = ck.source_tie("DS.Props.SrcAtom")
     nh = 200 if ck.tier == "quick" else 5000
     maxops = 30 if ck.tier == "quick" else 60
     rng = ck.rng
@@ -708,6 +710,7 @@ def run(ck):
     ]
     witness_check(ck)
     ck.tie_verdict(tie_ok, tie_info, "lattice.py")
+    ck.tie_verdict(tie2_ok, tie2_info, "atom.py")
     if not ok and not ck.violations:
         ck.fail("lean-build", "Lean obligations of C09 no longer check: %r" % info["failed_modules"],
                 {"kind": "proof-obligation", "theorem": info["failed_modules"], "errors": info["errors"]}, no_failing_input=True)
